@@ -4,7 +4,7 @@ import vcommon as V
 import c02gen as G
 
 PROPS = ["coq/C02/Properties_C02.v", "coq/C02/Properties_C02_rot.v", "coq/C02/Properties_C02_sym.v", "coq/C02/Properties_C02_fit.v",
-         "coq/C02/Properties_C02_load.v"]
+         "coq/C02/Properties_C02_load.v", "coq/C02/Properties_C02_path.v"]
 EXTRACT = "coq/C02/Extract_C02.v"
 DRIVER = "props/C02/driver.ml"
 UNIT = {"c02unit": ["props/C02/unit.cpp"]}
@@ -324,6 +324,9 @@ def gen_path_case(r, comp, sdir, tag):
             G.write_xyz(f, [fr[ids.index(i)] for i in order])
             files.append(f)
         p["files"] = files
+        p["frames"] = frames
+        if comp in ("aspath", "azpath") and r.random() < 0.5:
+            p["lambda"] = r.choice([0.5, 1.0, 2.0, 0.25])
         lam = r.uniform(0.3, nfr - 1.3)
         cur = [G.add(ref[k], G.scale(lam, disp[k])) for k in range(n)]
     for k, i in enumerate(ids):
@@ -436,7 +439,7 @@ def start_parallel(run):
     finally:
         V.coq_check_properties = orig
     run.cov["checker_cmd"] = ("make -k -C coq C02/Properties_C02.vo C02/Properties_C02_rot.vo C02/Properties_C02_sym.vo C02/Properties_C02_fit.vo && "
-                              "coqc -Q . CV <each of the four files> (Coq 8.16.1 kernel; the files are compiled concurrently; native_compute not used)")
+                              "coqc -Q . CV <each of the property files> (Coq 8.16.1 kernel; the files are compiled concurrently; native_compute not used)")
     return st
 
 
@@ -487,6 +490,19 @@ def check(run):
             generic = (k % 3 == 2)
             c = gen_until(r, comp, generic=generic)
             if c is not None:
+                tie_cases.append([c])
+    # the same components with the atoms selected through the other keywords (several atomNumbers lines, indexGroup,
+    # atomNumbersRange, atomsOfGroup): the group is the first-occurrence de-duplication of the selections in parse order
+    sdirs = os.path.join(V.BUILD, "scratch", "C02sel"); os.makedirs(sdirs, exist_ok=True)
+    nsel = 0
+    for comp in G.MODELLED:
+        for k in range(4 * scale):
+            c = gen_until(r, comp, generic=(k % 2 == 1), dup=0.2)
+            if c is None or not G.respell(r, c, sdirs, "sel%d" % nsel):
+                continue
+            nsel += 1
+            if well_conditioned(c) and (comp not in DISJOINT or not (set(G.dedup(c["groups"][0])) & set(G.dedup(c["groups"][-1])))):
+                c["selection"] = 1
                 tie_cases.append([c])
     # components built on the optimal rotation: the driver finds q with its own Jacobi iteration, the model maps q to the value
     for comp in G.MODELLED_REF:
@@ -554,6 +570,49 @@ def check(run):
     for cs in tie_cases:
         i = impl.add(G.impl_line(cs)); m = mod.add(G.model_line(cs))
         jobs.append(("tie", cs, i, m))
+    # arithmetic path variables (aspath, azpath) in Cartesian space: value model
+    sdirp = os.path.join(V.BUILD, "scratch", "C02paths"); os.makedirs(sdirp, exist_ok=True)
+    for comp in ("aspath", "azpath"):
+        for k in range(6 * scale):
+            c = gen_path_case(r, comp, sdirp, "tie_%s_%d" % (comp, k))
+            if c is None:
+                continue
+            pr = c["params"]; ids = c["groups"][0]
+            t = [comp, "1", "0", G.hx(0.0), G.hx(0.0), G.hx(0.0), G.hx(pr["lambda"] if pr.get("lambda") is not None else -1.0),
+                 "%d" % len(pr["frames"]), "%d" % len(ids)]
+            t += [G.hx(x) for fr in pr["frames"] for v in fr for x in v]
+            t += ["G", "%d" % len(ids)]
+            for i in ids:
+                t += ["%d" % (i - 1)] + [G.hx(x) for x in c["atoms"][i - 1]]
+            i = impl.add(G.impl_line([c])); m = mod.add(" ".join(t))
+            c["tol"] = 1e-7
+            jobs.append(("tie", [c], i, m))
+    # pair lists of selfCoordNum and of coordNum with group2CenterOnly: built at step 0, used (stale) after the atoms moved
+    for k in range(10 * scale):
+        comp = "selfCoordNum" if k % 2 == 0 else "coordNum"
+        c = gen_until(r, comp, generic=(k % 3 == 1), dup=0.0)
+        if c is None:
+            continue
+        c["params"]["tol"] = r.choice([0.001, 0.0078125, 0.05, 0.2])
+        if comp == "coordNum":
+            c["params"]["center"] = 1
+        if not well_conditioned(c):
+            continue
+        amp = r.choice([0.0, 0.3, 1.5])
+        for _ in range(30):
+            moved = [[a[0], a[1]] + [x + (r.gauss(0, amp) if amp else 0.0) for x in a[2:5]] for a in c["atoms"]]
+            c2 = dict(c); c2["atoms"] = moved
+            if well_conditioned(c2):
+                break
+        else:
+            continue
+        i0 = impl.add(G.impl_line([c])); i1 = impl.add(G.pos_line(moved))
+        t1 = G.model_tokens(c); t2 = G.model_tokens(c2); gpos = t1.index("G")
+        if comp == "selfCoordNum":
+            m = mod.add(" ".join(["selfCoordNumPL"] + t1[1:] + t2[t2.index("G"):]))
+        else:
+            m = mod.add(" ".join(["coordNumCenterPL"] + t1[1:gpos - 1] + t1[gpos:] + t2[t2.index("G"):]))
+        jobs.append(("pairlist", {"case": c, "moved": moved, "i": [i0, i1], "amp": amp}, i1, m))
     # pair list over steps AND run boundaries: runs of one session starting at arbitrary absolute steps, coordinates replaced
     # between the runs (far apart in one run, in contact in the next), list frequency 2..5
     for k in range(8 * scale):
@@ -626,6 +685,26 @@ def check(run):
                     idx.append(impl.add(G.pos_line(fr)))
         fresh = [impl.add(G.impl_line([c], atoms=frames[0])) for frames in runs]
         jobs.append(("plruns", {"case": c, "runs": runs, "starts": starts, "idx": idx, "fresh": fresh}, None, None))
+    # eigenvector with differenceVector / normalizeVector
+    for k in range(8 * scale):
+        c = gen_ref_case(r, "eigenvector")
+        if c is None:
+            continue
+        pr = c["params"]; n = len(pr["ref"])
+        pr["difference"] = 1 if k % 2 == 0 else 0
+        pr["normalize"] = 1 if k % 4 >= 1 else 0
+        if pr["difference"]:     # the vector is a second structure: the reference moved and deformed
+            Mq = G.quat_matrix(G.random_unit_quat(r)); tt = [V.dyadic(r, -3, 3) for _ in range(3)]
+            pr["vector"] = [[x + r.gauss(0, 0.5) for x in G.add(G.matvec(Mq, v), tt)] for v in pr["ref"]]
+        ids = G.dedup(c["groups"][0])
+        t = ["eigenvectorOpt", "1", "0", G.hx(0.0), G.hx(0.0), G.hx(0.0), "%d" % pr["difference"], "%d" % pr["normalize"], "%d" % n]
+        t += [G.hx(x) for v in pr["ref"] for x in v] + [G.hx(x) for v in pr["vector"] for x in v]
+        t += ["G", "%d" % n]
+        for i in ids:
+            t += ["%d" % (i - 1)] + [G.hx(x) for x in c["atoms"][i - 1]]
+        i = impl.add(G.impl_line([c])); m = mod.add(" ".join(t))
+        c["tol"] = 1e-7
+        jobs.append(("tie", [dict(c, comp="eigenvector:options")], i, m))
     # rmsd with atomPermutation (symmetry-adapted RMSD)
     for k in range(8 * scale):
         c = gen_ref_case(r, "rmsd")
@@ -802,7 +881,7 @@ def check(run):
         elif kind == "pairlist":
             a = parse_impl(iout[i]); b = parse_model(mout[m]); a0 = parse_impl(iout[obj["i"][0]])
             run.count("pairlist/" + case_key(obj["case"]) + "/%g" % obj["amp"], True)
-            run.dist("tie:coordNum:pairlist" + (":moved" if obj["amp"] else ":same-positions"))
+            run.dist("tie:%s:pairlist" % obj["case"]["comp"] + (":center" if obj["case"]["params"].get("center") else "") + (":moved" if obj["amp"] else ":same-positions"))
             rep = replay_obj("lines", [impl.lines[k] for k in obj["i"]], {"model_lines": [mod.lines[m]]})
             if a is None or a0 is None:
                 run.violation("value:coordNum:pairlist-error", "coordNum with a pair list fails: %s / %s" % (iout[obj["i"][0]][:80], iout[i][:80]), rep)
@@ -898,7 +977,7 @@ def judge_tie(run, cs, iline, iout, mline, mout):
     name = "+".join(c["comp"] for c in cs)
     key = "|".join(case_key(c) for c in cs)
     run.count(key, all(nontrivial(c) for c in cs))
-    run.dist("tie:" + (cs[0]["comp"] if len(cs) == 1 else "combination") + (":cell" if cs[0].get("cell") else ""))
+    run.dist("tie:" + (cs[0]["comp"] if len(cs) == 1 else "combination") + (":cell" if cs[0].get("cell") else "") + (":selection-keywords" if cs[0].get("selection") else ""))
     a = parse_impl(iout); b = parse_model(mout)
     if a is None:
         run.violation("value:%s:error" % cs[0]["comp"], "the implementation reports an error for a valid configuration (%s): %s" % (name, iout[:200]),
